@@ -20,7 +20,12 @@ impl Prop for Iin {
         }
     }
     fn floors() -> Vec<(&'static str, u32)> {
-        vec![("overflow", 30), ("overflow_discards_in_flight_event", 10), ("response_after_failed_unsol_series", 15), ("broadcast", 50)]
+        vec![
+            ("overflow", 30),
+            ("overflow_discards_in_flight_event", 10),
+            ("response_after_failed_unsol_series", 15),
+            ("broadcast", 50),
+        ]
     }
     fn strategy(tier: Tier) -> BoxedStrategy<Case> {
         case_strategy(true, if tier == Tier::Quick { 24 } else { 48 })
